@@ -98,11 +98,11 @@ func growthKey(g growth, what string) string {
 func runGrowth(thorough bool, res chan<- growthResult) {
 	fams := growthFamilies()
 	sizes := []int{1 << 10, 2 << 10, 4 << 10, 8 << 10, 16 << 10, 32 << 10, 64 << 10}
-	budget := 90 * time.Second
+	budget := 240 * time.Second
 	par := 8
 	if thorough {
 		sizes = append(sizes, 128<<10, 256<<10, 512<<10)
-		budget = 600 * time.Second
+		budget = 900 * time.Second
 		par = 8
 	}
 	const probeN = 512 << 10
@@ -305,8 +305,9 @@ func replayGrowth(name string, n int) (reproduced bool) {
 		}
 		fmt.Printf("growth family %s, variant %s\n", g.name, variant)
 		var sz []int
-		for _, m := range []int{n / 4, n / 2, n} {
-			if m >= 1 {
+		// the same grid as the check: sizes are powers of two from 1k
+		for _, m := range []int{n / 2, n} {
+			if m >= 1<<10 {
 				sz = append(sz, m)
 			}
 		}
